@@ -106,6 +106,52 @@ type rig struct {
 	// store-level digests around submissions that start with a forbidden header (serial mode): what changed although
 	// the submission had to be refused
 	refusedChanged []string
+	// background readers (scn.Readers)
+	stopRead  chan struct{}
+	readWG    sync.WaitGroup
+	readCount int64
+	readOnce  sync.Once
+}
+
+// startReaders: the store is read concurrently for the whole run, as API clients, other peers' handshakes (newest block
+// for the version message) and served getheaders read it in the running service.
+func (r *rig) startReaders() {
+	if r.s.Readers <= 0 {
+		return
+	}
+	r.stopRead = make(chan struct{})
+	for k := 0; k < r.s.Readers; k++ {
+		r.readWG.Add(1)
+		go func(k int) {
+			defer r.readWG.Done()
+			defer func() { _ = recover() }()
+			for i := k; ; i++ {
+				select {
+				case <-r.stopRead:
+					return
+				default:
+				}
+				switch i % 3 {
+				case 0:
+					_ = r.ci.Svc.Headers.GetTip()
+				case 1:
+					_ = r.ci.Svc.Headers.LatestHeaderLocator()
+				default:
+					_ = r.ci.http("GET", "/api/v1/chain/tip/longest", nil, nil)
+				}
+				atomic.AddInt64(&r.readCount, 1)
+				time.Sleep(200 * time.Microsecond)
+			}
+		}(k)
+	}
+}
+
+func (r *rig) stopReaders() {
+	if r.stopRead == nil {
+		return
+	}
+	r.readOnce.Do(func() { close(r.stopRead) })
+	r.readWG.Wait()
 }
 
 func (r *rig) serial() bool { return r.s.Sched != "free" }
@@ -191,6 +237,7 @@ func newRig(s *scn, name string) (*rig, error) {
 }
 
 func (r *rig) close() {
+	r.stopReaders()
 	for _, n := range r.nodes {
 		if n != nil {
 			n.close()
@@ -970,6 +1017,8 @@ func (r *rig) stepTick(seconds int) error {
 
 // run executes the scenario.
 func (r *rig) run() error {
+	r.startReaders()
+	defer r.stopReaders()
 	for _, st := range r.s.Steps {
 		var err error
 		switch st.Kind {
